@@ -25,7 +25,8 @@ LEVEL_NOTE = ("noop_rebuild is proved as noop_rebuild_partial under WF; the full
 TECHNIQUE = "Lean 4 proof over an executable model + history correspondence with the real CLI + executed-set oracles"
 OBLIGATIONS = [
     "Grog.C02.executes_only_if",
-    "Grog.C02.noop_rebuild_partial",
+    "Grog.C02.unchanged_not_executed",
+    "Grog.C02.restore_total",
     "Grog.C02.reexec_subset",
     "Grog.C02.early_cutoff",
     "Grog.C02.key_location_free",
